@@ -705,6 +705,7 @@ def _make_case(cfg):
         beta = numpy.abs(beta)
         X = X + 0.5
     y = X @ beta + (1.0 if cfg.get("fit_intercept", True) else 0.0) + rs.randn(n) * cfg["noise"]
+    y = y * cfg.get("scale", 1.0)          # targets of another scale; the residual floor `delta` is scaled alike
     w = None
     if cfg.get("weights") == "int":
         w = rs.randint(1, 4, size=n).astype(float)
@@ -727,7 +728,8 @@ def _check_case(cfg):
     stats = {}
     with warnings.catch_warnings():
         warnings.simplefilter("ignore")
-        m = QLR(quantile=q, max_iter=cfg.get("max_iter", SEARCH_ITERS), fit_intercept=fi, positive=pos)
+        m = QLR(quantile=q, max_iter=cfg.get("max_iter", SEARCH_ITERS), fit_intercept=fi, positive=pos,
+                delta=1e-4 * cfg.get("scale", 1.0))
         try:
             r = m.fit(X, y, w)
         except Exception as e:
@@ -770,7 +772,8 @@ def _check_case(cfg):
             bad.append(("score:not-monotone", "the fit with the smaller pinball_q loss gets the larger score (q=%s)" % q,
                         {"loss": [L, L2], "score": [s1, s2]}, "score increasing with the pinball loss"))
         # --- optimality against the exact LP optimum
-        Lo = _lp_optimum(q, X, y, w, fi, pos)
+        sc = cfg.get("scale", 1.0)
+        Lo = _lp_optimum(q, X, y / sc, w, fi, pos) * sc      # the LP solver's tolerances are absolute: solve at unit scale
         if Lo is not None and Lo > 1e-12:
             gap = (L - Lo) / Lo
             stats["gap"] = gap
@@ -799,7 +802,8 @@ def _check_case(cfg):
             reps = w.astype(int)
             Xr, yr = numpy.repeat(X, reps, axis=0), numpy.repeat(y, reps)
             try:
-                mr = QLR(quantile=q, max_iter=cfg.get("max_iter", SEARCH_ITERS), fit_intercept=fi, positive=pos).fit(Xr, yr)
+                mr = QLR(quantile=q, max_iter=cfg.get("max_iter", SEARCH_ITERS), fit_intercept=fi, positive=pos,
+                         delta=1e-4 * cfg.get("scale", 1.0)).fit(Xr, yr)
             except Exception as e:
                 bad.append(("fit:raises", "fit raises %s on a full-rank training set (repeated rows)" % type(e).__name__,
                             "%s: %s" % (type(e).__name__, e), "a fitted model"))
@@ -829,6 +833,8 @@ def _configs(ctx, count):
                     "noise": rng.choice([0.1, 0.5, 1.0, 3.0]),
                     "weights": rng.choice([None, None, "int", "int", "real"]),
                     "fit_intercept": rng.random() < 0.75, "positive": rng.random() < 0.2})
+        if t % 8 == 5:
+            out[-1]["scale"] = rng.choice([1e-6, 1e-3, 1e3])
     return out
 
 
